@@ -538,3 +538,78 @@ pub fn norm_tokens(text: &str) -> Result<Vec<String>, String> {
     walk(ts, &mut out);
     Ok(out)
 }
+
+/// Splits a WGSL source into its module-scope declarations (text pieces whose concatenation is the source).
+/// Returns None for sources the splitter does not handle (comments, directives).
+pub fn split_decls(src: &str) -> Option<Vec<String>> {
+    if src.contains("//") || src.contains("/*") {
+        return None;
+    }
+    let mut out: Vec<String> = vec![];
+    let mut cur = String::new();
+    let (mut brace, mut paren) = (0i32, 0i32);
+    for ch in src.chars() {
+        cur.push(ch);
+        match ch {
+            '{' => brace += 1,
+            '(' | '[' => paren += 1,
+            ')' | ']' => paren -= 1,
+            '}' => {
+                brace -= 1;
+                if brace == 0 && paren == 0 {
+                    out.push(std::mem::take(&mut cur));
+                }
+            }
+            ';' if brace == 0 && paren == 0 => {
+                if cur.trim() == ";" {
+                    // the optional `;` after a struct body belongs to the struct
+                    if let Some(last) = out.last_mut() {
+                        last.push_str(&cur);
+                        cur.clear();
+                        continue;
+                    }
+                }
+                out.push(std::mem::take(&mut cur));
+            }
+            _ => {}
+        }
+    }
+    if !cur.trim().is_empty() {
+        return None;
+    }
+    if let Some(last) = out.last_mut() {
+        last.push_str(&cur);
+    }
+    for d in &out {
+        let t = d.trim_start();
+        if t.starts_with("enable") || t.starts_with("requires") || t.starts_with("diagnostic") || t.starts_with("const_assert") {
+            return None;
+        }
+    }
+    // every piece ends in a newline so that pieces can be reordered freely
+    Some(out.into_iter().map(|d| if d.ends_with('\n') { d } else { format!("{d}\n") }).collect())
+}
+
+/// The same module with its module-scope declarations in another order (WGSL: declaration order at module scope is
+/// not significant). `how`: "reverse", "rotate" (first declaration last), "entries-first" (functions before the rest).
+pub fn reorder_decls(src: &str, how: &str) -> Option<String> {
+    let mut d = split_decls(src)?;
+    if d.len() < 2 {
+        return None;
+    }
+    match how {
+        "reverse" => d.reverse(),
+        "rotate" => d.rotate_left(1),
+        _ => {
+            let is_fn = |s: &String| s.contains("fn ");
+            let (mut f, r): (Vec<String>, Vec<String>) = d.into_iter().partition(is_fn);
+            f.extend(r);
+            d = f;
+        }
+    }
+    let out: String = d.concat();
+    if out == src {
+        return None;
+    }
+    Some(out)
+}
